@@ -181,14 +181,3 @@ def check_sentinel(ctx, config):
         ctx.anchor_missing('R5', 'struct ChunkFooter layout')
 
 
-def thorough(ctx):
-    for cfg in ('rel-default', 'rel-coll'):
-        sub = type(ctx)(ctx.pid, ctx.tier, ctx.seed)
-        sub.repo = ctx.repo
-        run(sub, cfg)
-        for v in sub.violations:
-            if not any(x['key'] == v['key'] for x in ctx.violations):
-                ctx.violations.append(v)
-        for k, n in sub.counts.items():
-            ctx.counts[k] = ctx.counts.get(k, 0) + n
-        ctx.configs_used.extend(sub.configs_used)
